@@ -78,7 +78,8 @@ fn judge_cert(st: &CertState, signer: &RealKey, issuer: Option<&IssuerReal>, sub
     out.transitions = 16;
     let cert = match r {
         Err(p) => {
-            out.unexpected_err = Some(format!("panic: {}", p));
+            // a signer that cannot sign must surface as an error, never as an unwinding call
+            out.findings.push(Finding::new("SIGN-PANIC", "self_signed/signed_by", p));
             return out;
         }
         Ok(Err(e)) => {
@@ -113,8 +114,10 @@ fn judge_csr(c: &super::c07::CsrCase, key: &RealKey, issuer: Option<(&IssuerReal
     let ev = eval_csr(&c.st, &c.attrs, &key.kp, &key.pubk);
     out.transitions = ev.transitions;
     if ev.err.is_some() || ev.panic.is_some() || ev.unconstructible.is_some() {
-        if ev.must_refuse.is_none() {
-            out.unexpected_err = ev.err.or(ev.panic).or(ev.unconstructible);
+        if let Some(p) = &ev.panic {
+            out.findings.push(Finding::new("SIGN-PANIC", "serialize_request", p.clone()));
+        } else if ev.must_refuse.is_none() {
+            out.unexpected_err = ev.err.or(ev.unconstructible);
         }
         return out;
     }
@@ -165,8 +168,10 @@ fn judge_crl(st: &CrlState, issuer: &IssuerReal, signer: &RealKey) -> Outcome {
     let ev = eval_crl(st, issuer);
     out.transitions = ev.transitions;
     let Some(der) = ev.der else {
-        if ev.must_refuse.is_none() {
-            out.unexpected_err = ev.err.or(ev.panic).or(ev.unconstructible);
+        if let Some(p) = &ev.panic {
+            out.findings.push(Finding::new("SIGN-PANIC", "CertificateRevocationListParams::signed_by", p.clone()));
+        } else if ev.must_refuse.is_none() {
+            out.unexpected_err = ev.err.or(ev.unconstructible);
         }
         return out;
     };
@@ -419,7 +424,7 @@ fn judge_crl_with(st: &CrlState, issuer: &IssuerRealRef, signer: &RealKey) -> Ou
     out.transitions = 8;
     let crl = match r {
         Err(p) => {
-            out.unexpected_err = Some(format!("panic: {}", p));
+            out.findings.push(Finding::new("SIGN-PANIC", "CertificateRevocationListParams::signed_by", p));
             return out;
         }
         Ok(Err(e)) => {
